@@ -1430,6 +1430,9 @@ class Ctx(object):
                     self.checks_on_path += 1
                     self.stats.queries["sat"] += 1
                     part = {k: model_value(v) for k, v in w.items()}
+                    if r2 == "sat" and _m2 is not None:
+                        # the solver confirmed it on the full path condition: its model names every input
+                        part = dict(part, **self.model_inputs(_m2))
                     self.results.append(Result(label, "sat", part, time.time() - t0, list(self.prefix[:self.pos]),
                                                "normal forms differ; witness of the reduced relations"))
                     return False
